@@ -110,6 +110,9 @@ class Driver:
             self.proc.stdin.write(data)
             self.proc.stdin.flush()
             line = self._readline(timeout or self.timeout)
+            while not line.lstrip().startswith(b"{"):
+                # a line the code under test printed on its own (Workspace::new reports what it loaded from a directory): not the answer
+                line = self._readline(timeout or self.timeout)
         except (BrokenPipeError, DriverDied):
             code = None
             try:
